@@ -86,6 +86,10 @@ pub enum Op {
     /// macro: Fund 0 (validate), Fund 5 (activate), Fund 1 (check), then one signing request
     /// (sign % 3: 0 good, 1 / 2 wrong derivation path for the first / second input)
     FundOpen { sign: u8 },
+    /// SignInvoice for an invoice the node issues itself: payment hash h (4 hashes), amount
+    /// variant amt; a second, different invoice for a hash that still has a live one is refused,
+    /// and so is one beyond the invoice table limit
+    Issue { h: u8, amt: u8 },
 }
 
 /// the primitive requests a macro op stands for (None: the op is primitive)
@@ -149,10 +153,11 @@ pub fn op_strat(refusable: bool) -> BoxedStrategy<Op> {
         2 => prop::bool::weighted(bad).prop_map(|bad_delay| Op::SetupChannel { bad_delay }),
         1 => ch().prop_map(|ch| Op::Forget { ch }),
         1 => Just(Op::Heartbeat),
-        1 => prop_oneof![Just(5u32), Just(61u32), Just(4000u32)].prop_map(|secs| Op::AdvanceTime { secs }),
+        1 => prop_oneof![Just(5u32), Just(61u32), Just(4000u32), Just(100_000u32)].prop_map(|secs| Op::AdvanceTime { secs }),
         2 => (0u8..2, any::<bool>()).prop_map(|(h, swap)| Op::CrossPay { h, swap }),
         2 => (0u8..6).prop_map(|kind| Op::Fund { kind }),
         3 => (0u8..3).prop_map(|sign| Op::FundOpen { sign }),
+        3 => (0u8..4, 0u8..2).prop_map(|(h, amt)| Op::Issue { h, amt }),
     ]
     .boxed()
 }
@@ -786,6 +791,22 @@ impl Machine {
             }
             Op::Heartbeat => {
                 let (res, _) = self.req("heartbeat", move || Ok(node.get_heartbeat()));
+                vec![res]
+            }
+            Op::Issue { h, amt } => {
+                use lightning_signer::bitcoin::hashes::sha256::Hash as Sha256;
+                use lightning_signer::lightning::types::payment::PaymentSecret;
+                use lightning_signer::lightning_invoice::{Currency, InvoiceBuilder};
+                let raw = InvoiceBuilder::new(Currency::BitcoinTestnet)
+                    .description(format!("union issued {}", amt))
+                    .payment_hash(Sha256::from_byte_array(phash(8 + (*h & 3)).0))
+                    .payment_secret(PaymentSecret([*h & 3; 32]))
+                    .duration_since_epoch(Duration::from_secs(self.w.clock.now().as_secs()))
+                    .min_final_cltv_expiry_delta(144)
+                    .amount_milli_satoshis(20_000_000 + *amt as u64 * 1_000_000)
+                    .build_raw()
+                    .expect("raw invoice");
+                let (res, _) = self.req("issue-invoice", move || node.sign_bolt11_invoice(raw).map(|_| ()));
                 vec![res]
             }
             Op::AdvanceTime { secs } => {
